@@ -111,17 +111,17 @@ def run(R):
         R.count('cyclic', name, nontrivial=True)
         want = [id(x) for x in ref_visit(root)]
         try:
-            got = with_timeout(lambda: [id(x) for x in g.visit(root)], 3.0)
+            got = with_timeout(lambda: [id(x) for x in g.visit(root)], 30.0)
         except Timeout:
-            got = 'does not terminate (3 s)'
+            got = 'does not terminate (30 s)'
         except Exception as e:                  # noqa
             got = 'exception ' + type(e).__name__
         if got != want:
             R.counterexample('cyclic', 'visit-on-cyclic-container', {'structure': name}, f'{len(want)} objects, each once, in order', got if isinstance(got, str) else f'{len(got)} objects: wrong order or repeated')
         try:
-            ne = with_timeout(lambda: sum(1 for _ in g.traverse(root)), 3.0)
+            ne = with_timeout(lambda: sum(1 for _ in g.traverse(root)), 30.0)
         except Timeout:
-            R.counterexample('cyclic', 'traverse-on-cyclic-container', {'structure': name}, 'terminates', 'does not terminate (3 s)')
+            R.counterexample('cyclic', 'traverse-on-cyclic-container', {'structure': name}, 'terminates', 'does not terminate (30 s)')
 
     class CountingList(list):
         expansions = 0
@@ -142,7 +142,7 @@ def run(R):
         R.count('shared-dag', depth, nontrivial=True)
         CountingList.expansions = 0
         try:
-            nobj = with_timeout(lambda: sum(1 for _ in g.visit(dag)), 5.0)
+            nobj = with_timeout(lambda: sum(1 for _ in g.visit(dag)), 30.0)
         except Timeout:
             nobj = 'timeout'
         if nobj != 1 or CountingList.expansions > nlists:
